@@ -915,7 +915,7 @@ func (w *tkWorld) opInit(l string, f []string, kv map[string]string) {
 	if cs.method != method {
 		w.oracle("C14", "cursor-not-bound-to-minting-method", fmt.Sprintf("%q: cursor minted by %s carries method %q", l, method, cs.method))
 	}
-	c.Out(fmt.Sprintf("%s callid=%s streamid=%s schema=%s created=%d cur=%s call=%s", base, XS(kcid), XS(kstream), X(ksch), cs.vcreat, X(cur), X(call)), obs)
+	c.Out(fmt.Sprintf("%s callid=%s streamid=%s schema=%s created=%d kcreated=%d cur=%s call=%s", base, XS(kcid), XS(kstream), X(ksch), cs.vcreat, ks.vcreat, X(cur), X(call)), obs)
 	c.Stat("init-ok")
 }
 
@@ -982,6 +982,9 @@ func (w *tkWorld) opCont(l string, f []string, kv map[string]string) {
 				k, cnt, lim := tkStateDesc(ns.state)
 				next = fmt.Sprintf("%s:%s:%s:%d:%d", hex.EncodeToString([]byte(ns.callID)), hex.EncodeToString([]byte(ns.method)), k, cnt, lim)
 				w.mintBinding(in, "cursor", ident, newTok, l)
+				if ns.method != method {
+					w.oracle("C14", "cursor-not-bound-to-minting-method", fmt.Sprintf("%q: cursor minted by a continuation of %s carries method %q", l, method, ns.method))
+				}
 			}
 		}
 	}
@@ -1115,7 +1118,7 @@ func (w *tkWorld) contOracles(l string, in *tkInst, ident, method string, r tkRe
 		c.Stat("c14-cross-method")
 		if r.panicV != nil {
 			w.oracle("C14", "cross-method-aborts-connection", fmt.Sprintf("%q: token minted by %s at route %s panicked: %v", l, curBase.method, method, r.panicV))
-		} else if r.status != 400 {
+		} else if r.status != 400 && !(r.status == 404 && !tkRegistered(method)) {
 			w.oracle("C14", "cross-method-not-refused", fmt.Sprintf("%q: token minted by %s at route %s answered %s %s", l, curBase.method, method, tkStatus(r), cls))
 		}
 		if ranCode {
@@ -1181,6 +1184,9 @@ func (w *tkWorld) opMint(l string, f []string, kv map[string]string) {
 		cnt, _ := strconv.Atoi(kv["count"])
 		lim, _ := strconv.Atoi(kv["limit"])
 		s.method = kv["method"]
+		if s.method == "-" {
+			s.method = ""
+		}
 		s.state = tkNewState(kv["skind"], s.method, cnt, lim)
 		s.tok, err = in.h.VerifC12SealCursor(realCreated, callID, s.method, s.state, a)
 	case "call":
@@ -1377,4 +1383,13 @@ func tkID(auth bool, domain, principal string) string {
 		t = "a"
 	}
 	return t + "/" + XS(domain) + "/" + XS(principal)
+}
+
+func tkRegistered(method string) bool {
+	for _, m := range tkMethods {
+		if m.name == method {
+			return true
+		}
+	}
+	return false
 }
